@@ -15,7 +15,7 @@ RULE = ("programs (<=45 steps) over two files holding objects of every interface
         "from: a live id of the right kind, a live id of another kind/interface/file, an id already released (double "
         "release, use after release), or a never-issued integer (-1, 0, small, high "
         "bit patterns); access elements are opened on plain, linked-block, compressed and external elements, several "
-        "at once on one element. Oracle: liveness model keyed by variable: a use with a non-live or wrong-kind id must return "
+        "at once on one element; two-identifier calls (Vinsert) are given a vgroup/vdata id of another open file. Oracle: liveness model keyed by variable: a use with a non-live or wrong-kind id must return "
         "the function's failure value (functions on the must-reject list), never crash; a use with a live id must "
         "act on its own object (file A and B hold different data); after all handles are released a full reader of "
         "file A must return the reference transcript (no retained state). Non-trivial = a stale or foreign id use "
@@ -152,8 +152,10 @@ def strategy_(draw, tier):
                           draw(st.sampled_from([1, 1, 3])), draw(st.integers(0, len(ETAGS) - 1))])
         elif c < 51:
             steps.append(["release", draw(st.integers(0, 60))])
-        elif c < 55:
+        elif c < 54:
             steps.append(["closefid", draw(st.integers(0, 60))])     # Hclose of a file that has attached access elements
+        elif c < 57:
+            steps.append(["xfile", draw(st.integers(0, 60)), draw(st.integers(0, 9))])
         elif c < 75:
             steps.append(["use", draw(st.integers(0, 60)), draw(st.integers(0, 20))])       # valid use of a live id
         else:
@@ -288,6 +290,33 @@ def run_case(case):
                     l2 = p.call("i", RELEASE[o["kind"]], V(o["var"]))
                     checks.append((l2, "mustfail", "second %s of the same id" % RELEASE[o["kind"]]))
                     labels.add("double_release")
+            elif k == "xfile":
+                # a call taking two identifiers, given a vgroup / vdata id of ANOTHER file: must be refused and
+                # must not touch the target (the vgroup "group" of file A is attached for writing but not changed)
+                fa = [o for o in objs if o["live"] and o["kind"] == "fid" and o["mode"] == 3]
+                fb = [o for o in objs if o["live"] and o["kind"] == "fid"]
+                pairs = [(a_, b_) for a_ in fa for b_ in fb if a_["file"] != b_["file"]]
+                if not pairs:
+                    continue
+                a_, b_ = pairs[st_[1] % len(pairs)]
+                checks.append((p.call("i", "Vinitialize", V(a_["var"])), "ret0", "Vstart"))
+                checks.append((p.call("i", "Vinitialize", V(b_["var"])), "ret0", "Vstart"))
+                p.call("i", "Vfind", V(a_["var"]), "group", bind="xga_ref")
+                checks.append((p.call("i", "Vattach", V(a_["var"]), V("xga_ref"), "w", bind="xga"), "opened", "vg"))
+                n0 = p.call("i", "Vntagrefs", V("xga"))
+                if st_[2] % 2 == 0:
+                    checks.append((p.call("i", "hx_vattach_named", V(b_["var"]), "group", bind="xb"), "opened", "vg"))
+                    rel = "Vdetach"
+                else:
+                    checks.append((p.call("i", "hx_vsattach_named", V(b_["var"]), "table", bind="xb"), "opened", "vs"))
+                    rel = "VSdetach"
+                checks.append((p.call("i", "Vinsert", V("xga"), V("xb")), "reject",
+                               ("Vinsert", -1, "other file's")))
+                n1 = p.call("i", "Vntagrefs", V("xga"))
+                checks.append((n1, "same_as", n0))
+                checks.append((p.call("i", rel, V("xb")), "ret0", rel))
+                checks.append((p.call("i", "Vdetach", V("xga")), "ret0", "Vdetach"))
+                labels.add("two_id_call_across_files")
             elif k == "use":
                 liv = [i for i, o in enumerate(objs) if o["live"]]
                 if not liv:
@@ -413,6 +442,11 @@ def run_case(case):
                 elif ck == "mustfail":
                     if r.ret != -1:
                         fail = dict(kind="%s did not fail" % pay, call=call, ret=r.ret)
+                elif ck == "same_as":
+                    r0 = rr.res.get(pay)
+                    if r0 is None or r.ret != r0.ret:
+                        fail = dict(kind="a refused call changed the target object", call=call,
+                                    before=None if r0 is None else r0.ret, after=r.ret)
                 elif ck == "reject":
                     name, failv, how = pay
                     if r.ret != failv:
